@@ -1,0 +1,16 @@
+// SPDX-FileCopyrightText: 2014-2024 caixw
+//
+// SPDX-License-Identifier: MIT
+
+//go:build verif
+
+package mux
+
+import (
+	"sync"
+
+	"github.com/issue9/mux/v9/internal/tree"
+)
+
+// SetVerifHook 仅用于验证：设置路由树的访问报告函数。
+func SetVerifHook(f func(locker *sync.RWMutex, site string, write bool)) { tree.VerifHook = f }
